@@ -996,3 +996,135 @@ func scRestore(r *rng) *cluster {
 	c.settle(600 * time.Millisecond)
 	return c
 }
+
+// ---------------------------------------------------------------- family 13: Figure 8 (five servers)
+// A leads term T and stores two entries only on itself; E wins a later term with the votes of C and
+// D, none of its AppendEntries is delivered, and stores different entries at those indices only on
+// itself; A comes back and leads again with B and C: B receives everything, C only the OLD-term
+// entries (a content filter on the link), D nothing.  A's old-term entries are then on a majority
+// (A, B, C) but nothing of A's new term is.  A stops; E wins with C and D (its log ends in a higher
+// term than theirs) and overwrites the indices.  A leader that commits by counting replicas of
+// old-term entries lets B apply entries that are then replaced.
+func scFigure8(r *rng) *cluster {
+	c := basicCluster(clusterOpts{voters: 5, trailing: 100, maxAppend: 1, prevoteOff: true})
+	note := func(f string, a ...interface{}) { c.h.add(hev{kind: "note", s: "fig8: " + fmt.Sprintf(f, a...)}) }
+	ids := append([]uint64(nil), c.ids...)
+	for i := range ids {
+		j := r.intn(i + 1)
+		ids[i], ids[j] = ids[j], ids[i]
+	}
+	A, B, C, D, E := ids[0], ids[1], ids[2], ids[3], ids[4]
+	if !c.elect(A, 300*time.Millisecond) {
+		note("A not elected")
+		return c
+	}
+	c.call(A, "apply", 3001, 0).wait(300 * time.Millisecond)
+	c.settle(200 * time.Millisecond)
+	base := c.nodes[A].r.LastIndex()
+	oldTerm := c.nodes[A].r.CurrentTerm()
+	c.partition([]uint64{A}, []uint64{B, C, D, E})
+	c.call(A, "apply", 3002, 0)
+	c.call(A, "apply", 3007, 0)
+	waitFor(50*time.Millisecond, func() bool { return c.nodes[A].r.LastIndex() >= base+2 })
+	c.nodes[A].stop()
+	clearLeaders := func(ids ...uint64) {
+		for _, id := range ids {
+			if c.nodes[id].alive {
+				c.nodes[id].r.VerifSetLeader("", "")
+			}
+		}
+	}
+	// make cand the leader using only the votes of `voters`; candidates that lose a round are re-armed
+	win := func(cand uint64, voters ...uint64) bool {
+		clearLeaders(voters...)
+		c.nodes[cand].r.VerifFireHeartbeatTimeout()
+		for try := 0; try < 8; try++ {
+			if waitFor(30*time.Millisecond, func() bool { return c.nodes[cand].r.State() == raft.Leader }) {
+				return true
+			}
+			clearLeaders(voters...)
+			if c.nodes[cand].r.State() == raft.Candidate {
+				c.kickCandidate(cand)
+			} else {
+				c.nodes[cand].r.VerifFireHeartbeatTimeout()
+			}
+		}
+		return c.nodes[cand].r.State() == raft.Leader
+	}
+	onlyVotes := func(cmd interface{}) bool {
+		_, ok := cmd.(*raft.RequestVoteRequest)
+		return ok
+	}
+	// E wins with C and D; nothing but its vote requests is delivered
+	c.heal()
+	c.partition([]uint64{E, C, D}, []uint64{A, B})
+	c.net.setFilter(E, C, onlyVotes)
+	c.net.setFilter(E, D, onlyVotes)
+	if !win(E, C, D) {
+		note("E did not win")
+		return c
+	}
+	c.call(E, "apply", 3003, 0)
+	c.call(E, "apply", 3004, 0)
+	waitFor(50*time.Millisecond, func() bool { return c.nodes[E].r.LastIndex() >= base+3 })
+	c.nodes[E].stop()
+	c.net.setFilter(E, C, nil)
+	c.net.setFilter(E, D, nil)
+	// A returns and wins with B and C; C is only given entries of A's old term
+	c.nodes[A].start()
+	c.partition([]uint64{A, B, C}, []uint64{D, E})
+	stored := func(node uint64, idx uint64) bool {
+		for _, e := range c.h.snapshot() {
+			if e.kind == "store" && e.node == node {
+				for _, x := range e.ents {
+					if x[0] == idx {
+						return true
+					}
+				}
+			}
+		}
+		return false
+	}
+	// C rejects what does not fit its log (that is how A learns where C is); once C holds A's old
+	// entries, anything of A's new term is lost on the way to C
+	c.net.setFilter(A, C, func(cmd interface{}) bool {
+		if ae, ok := cmd.(*raft.AppendEntriesRequest); ok {
+			for _, l := range ae.Entries {
+				if l.Term > oldTerm && stored(C, base+2) {
+					return false
+				}
+			}
+		}
+		return true
+	})
+	if !win(A, B, C) {
+		note("A did not win again")
+		c.net.setFilter(A, C, nil)
+		c.heal()
+		c.nodes[E].start()
+		c.settle(300 * time.Millisecond)
+		return c
+	}
+	ok1 := waitFor(60*time.Millisecond, func() bool { return stored(C, base+2) && stored(B, base+3) })
+	time.Sleep(time.Duration(3+r.intn(4)) * time.Millisecond) // B hears the commit index A computed, if any
+	note("C holds A's old-term entries up to %d and B also A's new entry: %v; B applied %d", base+2, ok1, c.nodes[B].r.AppliedIndex())
+	c.nodes[A].stop()
+	c.net.setFilter(A, C, nil)
+	// E returns and wins with C and D, then overwrites
+	c.nodes[E].start()
+	c.partition([]uint64{E, C, D}, []uint64{A, B})
+	if win(E, C, D) {
+		c.call(E, "apply", 3005, 0).wait(300 * time.Millisecond)
+	} else {
+		note("E did not win at the end")
+	}
+	c.nodes[A].start()
+	c.heal()
+	if l := c.ensureLeader(r); l != nil {
+		c.call(l.id, "apply", 3006, 0).wait(300 * time.Millisecond)
+	}
+	c.settle(400 * time.Millisecond)
+	return c
+}
+
+func init() { scenarioFamilies[13] = scFigure8 }
